@@ -493,6 +493,8 @@ struct Ctx<'a> {
     cfg: &'a GenCfg,
     /// groups whose closing parenthesis has been emitted (usable by backrefs / conditions)
     closed: Vec<usize>,
+    /// groups that are open at this point (a backreference to one of them refers to itself)
+    open: Vec<usize>,
     named: Vec<(usize, String)>,
     next_group: usize,
     in_atomic: bool,
@@ -629,7 +631,9 @@ impl<'a> Ctx<'a> {
                 let g = self.next_group;
                 self.next_group += 1;
                 let named = self.rng.chance(1, 5);
+                self.open.push(g);
                 let c = self.expr(depth - 1);
+                self.open.pop();
                 self.closed.push(g);
                 if named {
                     let name = if self.cfg.numeric_names && self.rng.chance(1, 2) {
@@ -695,6 +699,11 @@ impl<'a> Ctx<'a> {
                         ahead,
                         neg,
                     };
+                }
+                3 if self.cfg.allow_backref && !self.open.is_empty() && self.named.is_empty() && self.rng.chance(1, 6) => {
+                    // a group referring to itself (the value of its previous iteration)
+                    let g = *self.rng.pick(&self.open);
+                    return Node::Repeat { child: Box::new(Node::Backref(g)), lo: 0, hi: Some(1), kind: Kind::Greedy };
                 }
                 3 if self.cfg.allow_backref && !self.closed.is_empty() => {
                     let g = *self.rng.pick(&self.closed);
@@ -907,6 +916,7 @@ pub fn gen_loop_pattern(rng: &mut Rng, cfg: &GenCfg) -> Node {
         rng,
         cfg,
         closed: Vec::new(),
+        open: Vec::new(),
         named: Vec::new(),
         next_group: 1,
         in_atomic: false,
@@ -922,6 +932,7 @@ pub fn gen_pattern(rng: &mut Rng, cfg: &GenCfg) -> Node {
         rng,
         cfg,
         closed: Vec::new(),
+        open: Vec::new(),
         named: Vec::new(),
         next_group: 1,
         in_atomic: false,
@@ -930,8 +941,9 @@ pub fn gen_pattern(rng: &mut Rng, cfg: &GenCfg) -> Node {
     ctx.expr(depth)
 }
 
-// 1-, 2-, 3- and 4-byte characters
-const TEXT_ALPHA: &[char] = &['a', 'a', 'a', 'a', 'b', 'b', 'b', 'c', 'é', 'é', '\n', '-', '1', '日', '😀'];
+// 1-, 2-, 3- and 4-byte characters, among them some whose last byte is 0xBF or 0x80 (the ends of
+// the continuation-byte range)
+const TEXT_ALPHA: &[char] = &['a', 'a', 'a', 'a', 'a', 'b', 'b', 'b', 'c', 'é', 'é', '\n', '-', '1', '日', '😀', 'ÿ', '¿', 'À', '\u{7ff}', '\u{10ffff}'];
 
 /// Extra text length allowed in the thorough tier (set once, before any job runs).
 static TEXT_BONUS: std::sync::atomic::AtomicUsize = std::sync::atomic::AtomicUsize::new(0);
